@@ -21,6 +21,7 @@ CONSTANTS
   MaxPart = {maxpart}
   MaxSegs = {maxsegs}
   MaxDepth = {depth}
+  QLen = {qlen}
   NP = {np}
   Mode = "{mode}"
 INVARIANTS {invs}
@@ -214,7 +215,7 @@ def expected_offmap(np_):
 def plan(tier):
     """Model-checking configurations and driver runs of a tier."""
     if tier == "quick":
-        mcs = [("seq", dict(mode="seq", k=4, maxlen=3, maxpart=2, maxsegs=3, depth=3, np=4, ch=4, cb=8, ca=2)),
+        mcs = [("seq", dict(mode="seq", k=3, maxlen=3, maxpart=2, maxsegs=3, depth=3, np=4, ch=4, cb=8, ca=2)),
                ("seq-altcost", dict(mode="seq", k=3, maxlen=3, maxpart=3, maxsegs=2, depth=3, np=4, ch=2, cb=2, ca=1)),
                ("index", dict(mode="index", k=3, maxlen=3, maxpart=2, maxsegs=2, depth=3, np=4, ch=4, cb=8, ca=2)),
                ("offmap", dict(mode="offmap", k=3, maxlen=3, maxpart=2, maxsegs=2, depth=7, np=6, ch=4, cb=8, ca=2))]
@@ -223,12 +224,12 @@ def plan(tier):
         for e in EMBEDDINGS:
             if e != "dense":
                 runs.append(dict(section="single", emb=e, k=5, maxlen=4, sel_max=2, rc_max=1, full=0, shard=0, shards=1))
-        for e in ("dense", "fat", "stride32"):
+        for e in ("dense", "fat"):
             for sh in range(2):
                 runs.append(dict(section="multi", emb=e, k=4, maxlen=3, sel_max=2, rc_max=3, shard=sh, shards=2))
         runs.append(dict(section="multi", emb="dense", k=4, maxlen=4, sel_max=2, rc_max=3, shard=0, shards=1, only_full3=1))
         for e in ("dense", "fat", "mixed", "u64top"):
-            runs.append(dict(section="chain", emb=e, k=6, maxlen=5, chains=800))
+            runs.append(dict(section="chain", emb=e, k=6, maxlen=5, chains=600))
         for e, fids in (("dense", "0,1,2"), ("u32edge", "7,4294967294,3"), ("huge", "2,0,1")):
             runs.append(dict(section="index", emb=e, k=4, maxlen=4, maxpart=2, fids=fids))
         runs.append(dict(section="offmap", emb="dense", k=4, np=8))
@@ -241,16 +242,17 @@ def plan(tier):
         runs = []
         for e in EMBEDDINGS:
             full = e in ("dense", "fat")
-            for sh in range(8):
-                runs.append(dict(section="single", emb=e, k=7, maxlen=5, sel_max=3 if full else 2,
-                                 rc_max=2 if full else 1, full=int(full), shard=sh, shards=8))
+            for sh in range(8 if full else 3):
+                runs.append(dict(section="single", emb=e, k=7 if full else 6, maxlen=5, sel_max=3 if full else 2,
+                                 rc_max=2 if full else 1, full=int(full), shard=sh, shards=8 if full else 3))
         for e in ("dense", "fat", "stride32", "mixed"):
             for sh in range(4):
                 runs.append(dict(section="multi", emb=e, k=4, maxlen=4, sel_max=2, rc_max=3, shard=sh, shards=4))
         for e in EMBEDDINGS:
-            runs.append(dict(section="chain", emb=e, k=7, maxlen=6, chains=4000))
+            runs.append(dict(section="chain", emb=e, k=7, maxlen=6, chains=3000))
         for e, fids in (("dense", "0,1,2"), ("u32edge", "7,4294967294,3"), ("huge", "2,0,1"), ("stride32", "1,0,9")):
             runs.append(dict(section="index", emb=e, k=4, maxlen=5, maxpart=3, fids=fids))
+        runs.sort(key=lambda r: 0 if r["section"] == "single" else 1)   # longest first
         runs.append(dict(section="offmap", emb="dense", k=4, np=8))
     return mcs, runs
 
@@ -276,6 +278,8 @@ KIND_NAMES = ["Range", "RangeWithHoles", "RangeWithBitmap", "SortedArray", "Arra
 
 def run(prop, tier, replay):
     t0 = time.time()
+    # many JVMs run side by side on a shared machine: keep their helper thread pools small
+    os.environ.setdefault("JAVA_TOOL_OPTIONS", "-XX:ParallelGCThreads=2 -XX:CICompilerCount=2")
     mutate = os.environ.get("C34_MUTATE")   # binding demonstration only (driver-side emulated mutations)
     out = vlib.Outcome(prop)
     assumptions = [
@@ -293,8 +297,8 @@ def run(prop, tier, replay):
     # 1. model-check the design and 2.-4. drive + validate the implementation, side by side ---------
     def model(name_cfg):
         name, c = name_cfg
-        cfg = MC.format(invs=INVS[c["mode"]], **c)
-        r = vlib.tlc_mc(f"{prop}-{name}", "RowIdSeq", cfg, workers=4, timeout=3000 if tier != "quick" else 900, xmx="6g")
+        cfg = MC.format(invs=INVS[c["mode"]], qlen=2 if tier == "quick" else 3, **c)
+        r = vlib.tlc_mc(f"{prop}-{name}", "RowIdSeq", cfg, workers=3 if tier == "quick" else 4, timeout=3000 if tier != "quick" else 900, xmx="6g")
         return name, c, cfg, r
 
     def one(i_run):
@@ -313,7 +317,7 @@ def run(prop, tier, replay):
             args += ["--mutate", mutate]
         vlib.harness_run(binary, args)
         cfg = TRACE_CFG.format(k=k, cls=emb["cls"])
-        v = vlib.tlc_trace(f"{prop}-{i}", "Trace_RowIdSeq", cfg, tf, timeout=3000, xmx="5g")
+        v = vlib.tlc_trace(f"{prop}-{i}", "Trace_RowIdSeq", cfg, tf, timeout=3000, xmx="5g" if tier == "quick" else "6g")
         return i, r, tf, v
 
     states = trans = 0
